@@ -57,8 +57,9 @@ class Analysis:
         cur = None
         m0 = sim.markets[0]
         for i, (k, kw) in enumerate(self.items):
-            if k == "log.direct" and isinstance(kw["log"], MarketStepBeginLog) and kw["log"].market is m0:
-                cur = {"session": kw["log"].session, "t": kw["times"][0], "times": kw["times"], "begin": i, "items": [],
+            # (type, market and session are the values recorded when the record was DELIVERED: a logger may keep records)
+            if k == "log.direct" and kw["log_type"] == "MarketStepBeginLog" and kw["market_id"] == m0.market_id:
+                cur = {"session": sim.sessions[kw["session_id"]], "t": kw["times"][0], "times": kw["times"], "begin": i, "items": [],
                        "sess_exec": kw["sess_exec"], "running": kw["running"]}
                 self.steps.append(cur)
             elif cur is not None:
@@ -76,7 +77,8 @@ class Analysis:
             if k == "log.write" and isinstance(kw["log"], ExecutionLog) and id(kw["log"]) in fill_ids and id(kw["log"]) not in seen:
                 seen.add(id(kw["log"]))
                 cur.append((i, kw["log"]))
-            elif (k == "log.write" and isinstance(kw["log"], (OrderLog, CancelLog))) or k == "log.direct":
+            elif (k == "log.write" and isinstance(kw["log"], (OrderLog, CancelLog))) or k in ("log.direct", "cb.submitted", "cb.canceled"):
+                # an acceptance (witnessed by the logger or by the owner's callback) or a step record ends the round
                 if cur:
                     out.append(cur)
                     cur = []
@@ -326,7 +328,7 @@ def check_c10(A: Analysis) -> Dict[str, Any]:
         if isinstance(l, (MarketStepBeginLog, MarketStepEndLog)):
             if k != "log.direct":
                 raise Violation("C10.step_records_synchronous", "a step record was queued instead of being processed directly")
-            step_recs[(type(l).__name__, l.market.market_id, items[i][1]["times"][0])] += 1
+            step_recs[(items[i][1].get("log_type", type(l).__name__), items[i][1].get("market_id", l.market.market_id), items[i][1]["times"][0])] += 1
     for t in range(A.total_steps):
         for m in sim.markets:
             for nm in ("MarketStepBeginLog", "MarketStepEndLog"):
@@ -526,7 +528,9 @@ def check_c09(A: Analysis, has_halt_rule: bool) -> Dict[str, Any]:
         nbatches = 0
         last_normal = None
         for i, k, kw in s["items"]:
-            if k == "log.write" and isinstance(kw["log"], (OrderLog, CancelLog)):
+            # an acceptance is witnessed by the logger's record or by the owner's callback (either suffices here: which of
+            # the two channels is complete is C10's / C11's subject)
+            if (k == "log.write" and isinstance(kw["log"], (OrderLog, CancelLog))) or k in ("cb.submitted", "cb.canceled"):
                 ag = kw["log"].agent_id
                 if ag in normal:
                     if ag != last_normal:
